@@ -487,12 +487,12 @@ func suiteShutdown(o *Out, r *Rng, n int, tier string) {
 			}
 			done := make(chan struct{})
 			go func() { es.Run(); close(done) }()
-			time.Sleep(25 * time.Millisecond)
-			if where == "in-factory-2" || where == "in-factory-1" || where == "before-run" || where == "in-handler" || where == "during-restart-delay" {
-				// nothing more: the shutdown was (or will have been) triggered from inside
+			// every scenario triggers the shutdown from inside (factory, handler, restart delay): wait for it — on a loaded
+			// machine the second or third incarnation may take far longer than the restart delay to come up
+			for t0 := time.Now(); !es.IsTerminating() && time.Since(t0) < 5*time.Second; {
+				time.Sleep(2 * time.Millisecond)
 			}
 			if !es.IsTerminating() {
-				time.Sleep(20 * time.Millisecond)
 				es.Shutdown(errors.New("late shutdown"))
 			}
 			imu.Lock()
